@@ -79,7 +79,7 @@ Fixpoint accepted (rs : list rec) (refused : list bool) : list rec :=
 Definition read_agree (raw : list Z) (h : hdr) (acc : list rec) (rd : Z * option (list rec) * Z) : bool :=
   let '(omit, orecs, e) := rd in
   let recs := match orecs with Some l => l | None => map (fun r => omit_view omit (canon r)) acc end in
-  match read_stream omit 0 raw with
+  match read_stream omit raw with
   | Ok (h', (rs, e')) =>
     zlist_eqb (h_text h') (h_text h) && refs_eqb (h_refs h') (h_refs h)
     && recs_eqb (map fst rs) recs && (end_code e' =? e) && forallb (fun x => negb (snd x)) rs
@@ -106,10 +106,10 @@ Definition c05_agree (c : c05case) : bool :=
     && forallb (read_agree raw h (accepted rs refused)) reads
   | DEC omit nrefs data cls r =>
     let shared := negb (bam_readerBufSize <? zlen data) in
-    match decode_record omit nrefs shared 0 data with
+    match decode_record omit nrefs shared data with
     | Ok (r', al) => (cls =? 0) && rec_eqb r' r && negb al
     | Err _ => cls =? 1
-    | Panic w => if shared && (w =? 3) then true (* depends on the spare capacity of the copy *) else cls =? 2
+    | Panic _ => cls =? 2
     | Stuck => false
     end
   | SEQ s len dbl exp =>
